@@ -246,6 +246,8 @@ BOUNDED = [
      'assumed contracts of PrimeFactors::has_factors_leq / has_factors_gt / product_above (iterator one-liners) and the pinned primitives inside the verified partition_factors (iter().all, derived clone, first_mut); cross-check of partition_factors itself; bound: all n below the limit plus structured prime-power products below 2^40'),
     ('plan_scalar', ['C04', 'C05', 'C10'], 'plan_scalar:1024', 'plan_scalar:12288',
      'assumed constructor contracts of the 20 butterflies and pinned iterator one-liners of the planner, end to end through FftPlannerScalar<f64>::plan_fft (both directions, fresh planner): no panic, len, direction, scratch <= 12n+64; bound: all n below the limit plus structured lengths below 2^18'),
+    ('opcount', ['C05'], 'opcount:600,0,0', 'opcount:3000,524288,10',
+     'operation-count clause of C05 (not decided by any contract): an instrumented element type counts every +, -, * of one chunk of the real FftPlannerScalar transform (in-place and immutable-input entry points) against 64 n log2 n: every n below the first limit; thorough: additionally the 10 lengths below 2^19 whose REAL recipe (read through the verif_design hook, no twiddles built) has the highest estimated cost ratio - the verdict is always the measured count'),
     ('plan_history', ['C06', 'C10'], 'plan_history:quick', 'plan_history:thorough',
      'history quantifier of C10/C06 on FftPlannerScalar<f64>: every request sequence of length <= 2 over 14 related lengths x 2 directions and of length 3 over 6 lengths x 2 directions (thorough: 20 / 11 lengths): no panic, right length and direction, output bit-identical to a fresh planner'),
     ('shapes', ['C03', 'C09', 'C15'], 'shapes:96', 'shapes:700',
